@@ -80,6 +80,13 @@ func showTerm(s *ast.SExpr) string {
 	if s.Atom != nil && s.Atom.Var != nil {
 		return fmt.Sprintf("?%d", s.Atom.Var.Index)
 	}
+	if s.Atom != nil && s.Atom.Symbol != nil {
+		// a symbol whose name reads like another kind of atom is marked, so that the printed form stays unambiguous
+		name := *s.Atom.Symbol
+		if _, err := strconv.ParseFloat(name, 64); err == nil || strings.HasPrefix(name, "\"") {
+			return "sym:" + name
+		}
+	}
 	return s.String()
 }
 
@@ -180,6 +187,38 @@ func abstractTerm(r *rand.Rand, t *ast.SExpr, nv int) *ast.SExpr {
 	}
 	if r.Intn(8) == 0 {
 		return pick(r, termAtoms)()
+	}
+	if r.Intn(6) == 0 {
+		return lookAlike(r, t)
+	}
+	return t
+}
+
+// lookAlike returns a different atom that is easily confused with t: same printed form but another kind, or a number that a
+// lossy comparison identifies with it.  (t itself when it has no look-alike.)
+func lookAlike(r *rand.Rand, t *ast.SExpr) *ast.SExpr {
+	if t == nil || t.Atom == nil {
+		return t
+	}
+	a := t.Atom
+	switch {
+	case a.Int != nil:
+		switch *a.Int {
+		case 1 << 53:
+			return ast.NewInt(1<<53 + 1)
+		case 1<<53 + 1:
+			return ast.NewInt(1 << 53)
+		}
+		return pick(r, []*ast.SExpr{ast.NewSymbol(fmt.Sprint(*a.Int)), ast.NewFloat(float64(*a.Int)), ast.NewString(fmt.Sprint(*a.Int))})
+	case a.Symbol != nil:
+		if n, err := strconv.ParseInt(*a.Symbol, 10, 64); err == nil {
+			return ast.NewInt(n)
+		}
+		return pick(r, []*ast.SExpr{ast.NewString(*a.Symbol), ast.NewSymbol("\"" + *a.Symbol + "\"")})
+	case a.Str != nil:
+		return pick(r, []*ast.SExpr{ast.NewSymbol(*a.Str), ast.NewSymbol("\"" + *a.Str + "\"")})
+	case a.Float != nil:
+		return ast.NewSymbol(t.String())
 	}
 	return t
 }
